@@ -88,12 +88,18 @@ func (ucr *UnsignedChunkReader) Read(p []byte) (int, error) {
 			break
 		}
 		rdr := io.TeeReader(ucr.reader, ucr.hasher)
-		payload := make([]byte, chunkSize)
-		// Read and cache the payload
-		_, err = io.ReadFull(rdr, payload)
+		// Read and cache the payload. The buffer grows with the bytes
+		// really received, never with the size announced on the wire.
+		var buf bytes.Buffer
+		_, err = io.CopyN(&buf, rdr, chunkSize)
 		if err != nil {
+			if err == io.EOF {
+				// body ended inside (or right before) the chunk data
+				err = io.ErrUnexpectedEOF
+			}
 			return 0, err
 		}
+		payload := buf.Bytes()
 
 		// Skip the trailing "\r\n"
 		if err := ucr.readAndSkip('\r', '\n'); err != nil {
@@ -150,7 +156,7 @@ func (ucr *UnsignedChunkReader) extractChunkSize() (int64, error) {
 	line = strings.TrimSpace(line)
 
 	chunkSize, err := strconv.ParseInt(line, 16, 64)
-	if err != nil {
+	if err != nil || chunkSize < 0 {
 		return 0, errMalformedEncoding
 	}
 
